@@ -31,6 +31,7 @@ CASES = [  # (defect id, property, commit, demo, rules expected)
     ("D26", "C09", "b732f30", "d26_hebrew_numbering_plain_int.py", ["R09.identity"]),
     ("D27", "C09", "5657263", "d27_badi_plus_months.py", ["R09.15"]),
     ("D28", "C09", "6301fcb", "d28_plus_months_exception_type.py", ["R09.16"]),
+    ("D29", "C13", "5bddad4", "d29_era_singleton_race.py", ["R13.16"]),
 ]
 demos = os.path.join(HERE, "demos")
 for did, prop, commit, demo, rules in CASES:
